@@ -170,7 +170,7 @@ static void ph_full(void *u) {
     int64_t N = spec_numcells(g_res);
     int64_t lo = N * mc_wid / mc_nw, hi = N * (mc_wid + 1) / mc_nw;
     for (int64_t i = lo; i < hi; i++) {
-        if ((i & 63) == 0 && mc_expired()) return;
+        if (mc_tick(63)) return;
         mc_states(1);
         MC_RUN(OP_CELL, H(spec_cell_at(g_res, i)));
     }
@@ -181,7 +181,7 @@ static void ph_count(void *u) {
 static void ph_cells(void *u) {
     size_t lo = g_dom.n * mc_wid / mc_nw, hi = g_dom.n * (mc_wid + 1) / mc_nw;
     for (size_t i = lo; i < hi; i++) {
-        if ((i & 63) == 0 && mc_expired()) return;
+        if (mc_tick(63)) return;
         mc_states(1);
         MC_RUN(OP_CELL, H(g_dom.v[i]));
     }
@@ -189,7 +189,7 @@ static void ph_cells(void *u) {
 static void ph_cand(void *u) {
     for (size_t i = 0; i < g_cand.n; i++) {
         if (!mc_mine(i)) continue;
-        if ((i & 1023) == 0 && mc_expired()) return;
+        if (mc_tick(1023)) return;
         MC_RUN(OP_CAND, H(g_cand.v[i]));
     }
 }
